@@ -85,3 +85,127 @@ instances! {
     c01_k5_key_other_both => key_coherence(1, 1, 0, 0);
     c01_k5_key_same_b => key_coherence(1, 1, 1, 1);
 }
+
+// ------------------------------------------------------------------------------------------------
+// C04.K1 / C12.K3 — IdBuilder against a segment-sequence view; DirEntry::parent_id; extension_of
+// ------------------------------------------------------------------------------------------------
+#[cfg(any(feature = "tar", feature = "zip", feature = "hot-reloading"))]
+mod idb {
+    use super::*;
+    const SEGS: [&str; 4] = ["a", "bc", "a.b", "."];
+    fn pick() -> usize {
+        (nd::<u8>() & 3) as usize
+    }
+    /// model: buffer of the valid segments pushed so far joined by '.'
+    struct Model {
+        buf: [u8; 12],
+        len: usize,
+        nseg: usize,
+        seg_start: [usize; 4],
+    }
+    impl Model {
+        fn push(&mut self, s: &str) {
+            self.seg_start[self.nseg] = self.len;
+            if self.nseg > 0 {
+                self.buf[self.len] = b'.';
+                self.len += 1;
+            }
+            let b = s.as_bytes();
+            let mut i = 0;
+            while i < b.len() {
+                self.buf[self.len] = b[i];
+                self.len += 1;
+                i += 1;
+            }
+            self.nseg += 1;
+        }
+        fn pop(&mut self) -> bool {
+            if self.nseg == 0 {
+                return false;
+            }
+            self.nseg -= 1;
+            self.len = self.seg_start[self.nseg];
+            true
+        }
+        fn eq(&self, s: &str) -> bool {
+            let b = s.as_bytes();
+            if b.len() != self.len {
+                return false;
+            }
+            let mut i = 0;
+            while i < self.len {
+                if b[i] != self.buf[i] {
+                    return false;
+                }
+                i += 1;
+            }
+            true
+        }
+    }
+    fn id_builder_steps(seq: [usize; 3], pop: bool) {
+        let mut ib = IdBuilder::default();
+        let mut m = Model { buf: [0; 12], len: 0, nseg: 0, seg_start: [0; 4] };
+        assert!(&*ib.join() == "", "C04 the root id is the empty string");
+        let mut k = 0;
+        while k < 3 {
+            let s = SEGS[seq[k]];
+            let valid = s == "a" || s == "bc";
+            let r = ib.push(s);
+            assert!(r.is_some() == valid, "C04/C12 a segment is accepted iff it contains no '.' (names not expressible as an id produce no entry)");
+            if valid {
+                m.push(s);
+            }
+            assert!(m.eq(&ib.join()), "C04/C12 an id is its segments joined by '.' (a rejected segment leaves the id unchanged)");
+            k += 1;
+        }
+        if pop {
+            let r = ib.pop();
+            let mr = m.pop();
+            assert!(r.is_some() == mr, "IdBuilder::pop fails exactly on the empty id");
+            assert!(m.eq(&ib.join()), "C12 pop removes exactly the last segment ('..' in a reported path)");
+        }
+        ib.reset();
+        assert!(&*ib.join() == "", "reset yields the root id");
+    }
+    macro_rules! instances {
+        ($( $name:ident => $body:expr; )*) => { $(
+            #[cfg_attr(kani, kani::proof)]
+            #[cfg_attr(kani, kani::unwind(14))]
+            pub(crate) fn $name() { $body }
+        )* };
+    }
+    instances! {
+        c04_k1_id_builder_aba => id_builder_steps([0, 1, 0], true);
+        c04_k1_id_builder_dot_mid => id_builder_steps([0, 3, 1], true);
+        c04_k1_id_builder_dotted_first => id_builder_steps([2, 0, 1], false);
+        c04_k1_id_builder_all_bad => id_builder_steps([3, 2, 3], true);
+        c04_k1_id_builder_bc_bc => id_builder_steps([1, 1, 2], false);
+    }
+}
+
+fn parent_id_cases() {
+    use crate::source::DirEntry;
+    let ids = ["", "a", "a.b", "a.b.c"];
+    let want: [Option<&str>; 4] = [None, Some(""), Some("a"), Some("a.b")];
+    let mut i = 0;
+    while i < 4 {
+        let mut k = 0;
+        while k < 2 {
+            let e = if k == 0 { DirEntry::File(ids[i], "x") } else { DirEntry::Directory(ids[i]) };
+            assert!(e.parent_id() == want[i], "C12 the parent of an entry is the id without its last segment; the root has none");
+            assert!(e.id() == ids[i] && e.is_dir() == !e.is_file() && e.is_dir() == (k == 1));
+            let o = match e {
+                DirEntry::File(id, ext) => crate::source::OwnedDirEntry::File(id.into(), ext.into()),
+                DirEntry::Directory(id) => crate::source::OwnedDirEntry::Directory(id.into()),
+            };
+            assert!(o.as_dir_entry() == e, "OwnedDirEntry::as_dir_entry is the same entry");
+            k += 1;
+        }
+        i += 1;
+    }
+}
+#[cfg_attr(kani, kani::proof)]
+#[cfg_attr(kani, kani::unwind(8))]
+pub(crate) fn c12_k3_parent_id() {
+    parent_id_cases()
+}
